@@ -84,6 +84,13 @@ func declaredActionsCheck(c *Ctx, keyPrefix string, onlyImplicit bool) {
 			if !okf {
 				continue
 			}
+			// requests for the same opcode that must be refused come first (too many operands, none, a label where
+			// a register belongs): a refusal leaves nothing behind that a later valid request could see
+			if len(ops) > 0 {
+				x86.VerifBuild(opc, ci.Suffixes, append(append([]operand.Op{}, ops...), ops...))
+				x86.VerifBuild(opc, ci.Suffixes, nil)
+				x86.VerifBuild(opc, ci.Suffixes, append([]operand.Op{operand.LabelRef("nowhere")}, ops[1:]...))
+			}
 			i, err, _ := x86.VerifBuild(opc, ci.Suffixes, ops)
 			if err != nil || i == nil {
 				continue
